@@ -1,7 +1,7 @@
 """Framework rules: C01, C04, C05, C06, C08, C09, C10."""
 from .core import AnchorMissing, strip_sites, walk, show, callee_str, callee_decl, decl_matches, callee_key, is_param_call
 from .paths import mut_ref_args, stores, calls, field_stores
-from .pat import (num, is_const, unload, last_field, is_field, strip_casts, is_call, has_cmp, cmp_int_true,
+from .pat import (checked_access_fact, num, is_const, unload, last_field, is_field, strip_casts, is_call, has_cmp, cmp_int_true,
                   all_paths, show_facts, field_chain, root_of, contains, base_of, find_calls)
 from .tables import aggregates, unwrap, src_field, src_base
 from .inline import expand_calls
@@ -1058,13 +1058,17 @@ def check_C10(ctx, rep):
             rep.ob('C10.R3', pe_fn, 'arm:%s:delivered-through-broadcast-helper' % var, okh,
                    'the arm delivers Event::%s to every machine through a private helper' % var)
             continue
-        rep.ob('C10.R3', pe_fn, 'arm:%s:one-transition-site' % var, len(tcalls) == 1, 'transition(.., Event::%s) sites in the arm: %d' % (var, len(tcalls)))
-        if len(tcalls) != 1:
+        # a broadcast arm may have several exclusive sites inside its loop (`if Some(mi) == owner { own(mi) } else { other(mi) }`):
+        # what matters is one delivery per iteration, checked below
+        one_site = len(tcalls) == 1 or (broadcast and len(tcalls) >= 1)
+        rep.ob('C10.R3', pe_fn, 'arm:%s:one-transition-site' % var, one_site, 'transition(.., Event::%s) sites in the arm: %d' % (var, len(tcalls)))
+        if not one_site:
             continue
         cb, cargs = tcalls[0]
+        cbs = {b for (b, a_) in tcalls}
         if broadcast:
-            hs = [h for h, body in loops.items() if cb in body and fa.cfg.dominates(head, h)]
-            ok = len(hs) == 1 and is_range_loop_var(fa, cargs[1])
+            hs = [h for h, body in loops.items() if cbs <= body and fa.cfg.dominates(head, h)]
+            ok = len(hs) == 1 and all(is_range_loop_var(fa, a_[1]) for (b_, a_) in tcalls)
             rng = False
             for (site, v2, flds, ln) in aggregates(fa, 'ops::Range') + aggregates(fa, 'range::Range'):
                 if fa.cfg.dominates(head, site[0]) and fa.cfg.dominates(site[0], cb):
@@ -1081,10 +1085,12 @@ def check_C10(ctx, rep):
             # every iteration calls transition
             ok_it = True
             wit = None
+            # judged per iteration (facts of one pass through the loop body only)
+            pfi = an.paths(pe_fn, history=True, record_calls=lambda f: callee_str(f).endswith('Framework::<M, R, T>::transition'), tag='tr', entry=h)
             for (x, lab) in fa.cfg.pred[h]:
                 if x in body:
-                    for S in pf.on_edge(x, h):
-                        if not any(f[0] == 'called' and f[3] == cb for f in S):
+                    for S in pfi.on_edge(x, h):
+                        if sum(1 for f in S if f[0] == 'called' and f[3] in cbs) != 1:
                             ok_it, wit = False, S
             rep.ob('C10.R3', pe_fn, 'arm:%s:every-iteration-transitions' % var, ok_it, '' if ok_it else 'iteration without transition: ' + show_facts(wit))
             # loop exits only by exhausting the range (no break/return inside)
@@ -1100,7 +1106,8 @@ def check_C10(ctx, rep):
                     if not any(f[0] == 'variant' and f[2] == var and 'param' in str(f[1]) for f in S):
                         continue
                     called = any(f[0] == 'called' and f[3] == cb for f in S)
-                    oor = cmp_int_true(S, 'le', lambda l: is_call(l, 'len'), lambda r2: is_call(r2, 'into_raw'))
+                    oor = cmp_int_true(S, 'le', lambda l: is_call(l, 'len'), lambda r2: is_call(r2, 'into_raw')) or \
+                        checked_access_fact(S, lambda i: is_call(i, 'into_raw'), False)
                     rep.ob('C10.R3', pe_fn, 'arm:%s:return-only-after-transition-or-out-of-range' % var, called or oor, '' if (called or oor) else show_facts(S))
     from .rules_limits import rule_dispatch_discipline
     rule_dispatch_discipline(ctx, rep, 'C10.R3', ())
